@@ -12,11 +12,12 @@ Ops == (79..185) \cup {186, 250, 251, 252, 253, 254, 255}
 OpsReduced == {79, 80, 81, 96, 97, 98, 99, 100, 101, 103, 104, 105, 106, 107, 108, 113, 115, 116, 118, 121, 122, 123, 125,
                126, 130, 135, 136, 139, 143, 147, 148, 157, 160, 165, 166, 169, 171, 172, 174, 175, 176, 185, 186, 255}
 Pushes == {<<0>>, <<1, 1>>, <<1, 0>>, <<1, 128>>, <<1, 5>>, <<4, 255, 255, 255, 127>>, <<5, 0, 0, 0, 128, 0>>,
-           <<77, 8, 2>> \o Rep(1, 520), <<77, 9, 2>> \o Rep(1, 521), <<76, 1, 7>>, <<2, 1>>, <<78, 1, 0, 0>>}
+           <<77, 8, 2>> \o Rep(1, 520), <<77, 9, 2>> \o Rep(1, 521), <<76, 1, 7>>, <<2, 1>>, <<78, 1, 0, 0>>,
+           <<2, 0, 128>>, <<3, 0, 0, 128>>, <<2, 128, 0>>, <<55>> \o Rep(9, 55)}
 Tokens == {<<o>> : o \in (IF Reduced THEN OpsReduced ELSE Ops)} \cup Pushes
 Stacks == {<<>>, << <<1>> >>, << <<>> >>, << <<1>>, <<2>> >>, << <<2>>, <<1>>, <<128>> >>,
            << <<5>>, <<6>>, <<7>>, <<8>>, <<9>>, <<10>> >>, << <<255, 255, 255, 127>>, <<1>> >>,
-           << <<0, 0, 0, 128, 0>>, <<1>> >>}
+           << <<0, 0, 0, 128, 0>>, <<1>> >>, << <<1>>, <<0, 128>> >>}
 FlagSets == {{}, {"DISCOURAGE_UPGRADABLE_NOPS"}}
 Tx == [ver |-> <<1, 0, 0, 0>>, vin |-> << [prevout |-> [hash |-> Rep(7, 32), n |-> <<0, 0, 0, 0>>], script |-> <<>>, seq |-> Rep(255, 4)] >>,
        vout |-> << [value |-> <<1, 0, 0, 0, 0, 0, 0, 0>>, script |-> <<81>>] >>, wit |-> <<>>, lock |-> Zeros(4)]
